@@ -958,3 +958,12 @@ Theorem C19_resolve_reply_general : forall ovf pad xid ci hw mt cx pf s4,
        v_opts view = (53, [mt mod 256]) :: resolved_opts (rs_lease r) (rs_mask r) (rs_sid r) (rs_router r) (rs_dns r) rt (rs_routes r) (rs_opts r)).
 Proof. exact resolve_reply_general. Qed.
 Print Assumptions C19_resolve_reply_general.
+
+(* the allocation branch of ResolveV4: which free address the registry hands out is C01's business; here the model takes
+   the implementation's answer and requires only that it is admissible — inside a configured pool — which is precisely the
+   hypothesis [find_pool addr pools = Some p] of C19_resolve_reply_connected / _unnumbered; ResolveV4 then continues as
+   with a given address (C19_resolve_v4_precedence, C19_resolve_reply_general hold for every address) *)
+Theorem C19_resolve_alloc_admissible : forall addr pf, alloc_admissible addr pf = true ->
+  exists p n, find_pool addr (pf_pools pf) = Some p /\ In p (pf_pools pf) /\ pl_net p = Some n /\ net_contains n addr = true.
+Proof. exact alloc_admissible_pool. Qed.
+Print Assumptions C19_resolve_alloc_admissible.
